@@ -21,6 +21,7 @@ def run(c):
     r5(c)
     r6(c)
     r7(c)
+    r8(c)
 
 
 def r1(c):
@@ -307,3 +308,26 @@ def r7(c):
                     bad = f"the default is assigned under `{'' if pol else 'not '}{norm(t)[:40]}` (truth value of self.prio)"
         c.check("C19.R7", bad is None, repo.loc(m, st), "Entire.__init__/prio-default", f"{bad}: a generator declaring prio = 0 gets the default instead and wins over generators with a higher "
                 "declared priority for the same path", key_text="prio-truthiness")
+
+
+def r8(c):
+    repo = c.repo
+    c.rule("C19.R8", "one spelling of a file's path everywhere: _run_entire_generator files its result under gen.path(device) as returned — the device's current files are fetched "
+                     "and keyed by the same call (gen.split_downloaded_files / _get_files_to_download), so a path normalised or rewritten on one side only makes an unchanged "
+                     "file look new (uploaded and reloaded on every deploy)")
+    GEN = "annet.generators"
+    m = repo.module(GEN)
+    fn = repo.func(GEN, "_run_entire_generator")
+    c.count("functions")
+    pv = Provenance(fn)
+    res = [x for x in calls_in(fn) if call_name(x) == "GeneratorEntireResult"]
+    if len(res) != 1:
+        raise AnchorError("_run_entire_generator: GeneratorEntireResult(...) not found")
+    pe = kwarg(res[0], "path")
+    if pe is None:
+        raise AnchorError("_run_entire_generator: path= of the result not found")
+    calls = pv.origin_calls(pe, through_calls=True)
+    names = [call_name(x) for x in calls]
+    ok = any(n_.endswith(".path") for n_ in names) and all(n_.endswith(".path") for n_ in names)
+    c.check("C19.R8", ok, repo.loc(m, res[0]), "_run_entire_generator/path-as-returned", f"the result's path comes through {[n_ for n_ in names if not n_.endswith('.path')]}: it no longer "
+            "equals the key under which the device's file was fetched", key_text="path-rewritten")
